@@ -1,5 +1,6 @@
 import MosnVerif.Drive.Util
 import MosnVerif.Model.Flow
+import MosnVerif.Model.FlowWake
 import MosnVerif.Model.HpackInt
 import MosnVerif.Model.H2Frame
 import MosnVerif.Model.HpackTable
@@ -55,7 +56,7 @@ end flowops
 
 /-! ### peer scripts -/
 section peer
-open MosnVerif.Model.Flow MosnVerif.Gen.Flow
+open MosnVerif.Model.Flow MosnVerif.Gen.Flow MosnVerif.Model.FlowWake
 
 structure PSt where
   side : Side
@@ -155,13 +156,27 @@ def peerEvent (a : Acc) (ev : Label) (o : String) : Acc :=
           let q := a.p.ofSt s1
           if s1.count > a.p.strms.size then { q with ended := a.p.ended.push false, bodies := a.p.bodies.push len } else q
         | _ => a.p.ofSt s1
-      -- 2. what the senders can write now
+      -- 2. which sender goroutines run.  Between two peer frames every unfinished sender is parked in cond.Wait() (the
+      -- harness waits for that): after a Broadcast — the REGENERATED condition of the site, `signals (codePolicy …)` —
+      -- all of them re-evaluate their guard; after an opening only the new one runs; otherwise nobody does.  A server
+      -- stream that completes its body is closed, which Broadcasts too.
       let n := p1.strms.size
-      let wants := (List.range n).map (want p1)
-      let wanting := (wants.filter (· > 0)).length
-      let contested := wanting ≥ 2 && decide ((wants.sum : Int) > p1.cn)
       let obsOn (i : Nat) : List Nat := frames.filterMap (fun f => if f.1 == i then f.2 else none)
       let endOn (i : Nat) : Bool := frames.any (fun f => f.1 == i && f.2.isNone)
+      let bc := signals (codePolicy a.p.side) a.p.toSt ev
+      let openedNow := match ev with
+        | .openStream _ => s1.count > a.p.strms.size
+        | _ => false
+      let runs1 (i : Nat) : Bool := bc || (openedNow && i + 1 == n)
+      let finishes (i : Nat) : Bool :=
+        let st := p1.strms.getD i { n := 0, rem := 0 }
+        runs1 i && st.rem > 0 && want p1 i == st.rem && (decide ((st.rem : Int) ≤ p1.cn) || (obsOn i).sum == st.rem)
+      let runsAll := bc || (a.p.side == Side.server && (List.range n).any finishes)
+      let runs (i : Nat) : Bool := runsAll || runs1 i
+      -- what the running senders can write now
+      let wants := (List.range n).map (fun i => if runs i then want p1 i else 0)
+      let wanting := (wants.filter (· > 0)).length
+      let contested := wanting ≥ 2 && decide ((wants.sum : Int) > p1.cn)
       let (p2, okFrames) :=
         if contested then
           -- any maximal greedy outcome is allowed: follow the implementation's split of the connection window
@@ -179,8 +194,10 @@ def peerEvent (a : Acc) (ev : Label) (o : String) : Acc :=
           ({ p1 with strms := strms', cn := p1.cn - total }, within && maximal && sizesOk)
         else
           (List.range n).foldl (fun (acc : PSt × Bool) i =>
-            let (q, pred) := saturate acc.1 i ((acc.1.strms.getD i { n := 0, rem := 0 }).rem + 1)
-            (q, acc.2 && pred == obsOn i)) (p1, true)
+            if runs i then
+              let (q, pred) := saturate acc.1 i ((acc.1.strms.getD i { n := 0, rem := 0 }).rem + 1)
+              (q, acc.2 && pred == obsOn i)
+            else (acc.1, acc.2 && (obsOn i).isEmpty)) (p1, true)
       -- 3. END_STREAM exactly when the body is complete
       let endsOk := (List.range n).all (fun i =>
         let done := (p2.strms.getD i { n := 0, rem := 0 }).rem == 0 && !p2.closed
